@@ -38,7 +38,8 @@ L3(h) == \A i \in Idx(h, "CRead") :
 L4(h) == \A i \in Idx(h, "Acc") : \A j \in Idx(h, "ConnClosed") : (h[j].c = h[i].c) => j > i
 \* at the end of a COMPLETE run (wrapper closed, everything settled):
 \* L5: Accept reported closure
-L5(h) == Idx(h, "LnClose") # {} => Idx(h, "AccClosed") # {}
+\*     - promptly ("AccHang": still blocked 3 s after Close), also while a terminal handler is still serving a connection
+L5(h) == Idx(h, "LnClose") # {} => (Idx(h, "AccClosed") # {} /\ Idx(h, "AccHang") = {})
 \* L6: every offered connection was either delivered or closed; consumed and rejected ones are closed
 L6(h) == \A i \in Idx(h, "Offer") :
             LET c == h[i].c IN
